@@ -2,6 +2,10 @@ import CwPlus.Lemmas.Ics20
 import CwPlus.Lemmas.Ics20Migrate
 import CwPlus.Lemmas.Ics20Env
 import CwPlus.Lemmas.Ics20TotalSent
+import CwPlus.Lemmas.Ics20Ledger
+import CwPlus.Lemmas.Ics20Honest
+import CwPlus.Props.C18
+import CwPlus.Props.C11
 /-!
 # C12 — cw20-ics20: channel balance tracks vouchers exactly; error acks change nothing
 
@@ -24,7 +28,10 @@ The model's `World.exec` refuses transactions violating E1 / E2 (they are no-ops
 `storage_keys_faithful` (explicit hypothesis; `render_collision` shows the collision without it).
 `success_ack_effects` needs "the receiver is not the contract itself" and has it as the explicit
 hypothesis `hrs`.  IBC core's guarantee (one acknowledgement or timeout per sent packet, original
-data) is the explicit predicate `admissible` inside `runG`.
+data) is the explicit predicate `admissible` inside `runG`; the `…_all_histories` theorems drop it
+(`runU`, Lemmas/Ics20Ledger.lean).  The **honest counterparty** of the property's quantifier is the
+explicit model of Lemmas/Ics20Honest.lean (`HEv`, `CpState`, `honestEv`, `HonestFrom`); it is used by
+`refund_never_refused`, `refund_refused_iff_gas` and `refund_always_processed_fresh` only.
 -/
 namespace CwPlus.Props.C12
 open CwPlus CwPlus.Ics20
@@ -797,5 +804,433 @@ example : KeysFaithful wL.st.chan := by
   rcases hk with rfl | rfl
   · exact nativeOk_of_take (by decide)
   · trivial
+
+/-! ## All histories (no `admissible` filter); `sent` without re-baselining
+
+`runU` (Lemmas/Ics20Ledger.lean) carries the ghosts over *every* op of a history; its world is `run`. -/
+
+/-- **C12, outstanding_identity on every history** (clause "outstanding = sent − failed/timed-out −
+redeemed, always", without the IBC-core assumption `admissible`): also when acknowledgements / timeouts
+are forged, repeated or name packets never sent — `failed` then counts every failure the contract
+*processed*.  The world of the ghost history is the plain history `run w ops`. -/
+theorem outstanding_identity_all_histories (w : World) (ops : List (Block × Op)) (c : String) (d : Denom) :
+    (runU (w, Ghost.init w) ops).1 = run w ops ∧
+    outstanding (run w ops).st c d + (runU (w, Ghost.init w) ops).2.failed (c, d)
+      + (runU (w, Ghost.init w) ops).2.redeemed (c, d) = (runU (w, Ghost.init w) ops).2.sent (c, d) := by
+  have e : (runU (w, Ghost.init w) ops).1 = run w ops := runU_fst (w, Ghost.init w) ops
+  have h := (runU_ledger ops (ledgerInv_init w)).1 (c, d)
+  rw [e] at h
+  exact ⟨e, h⟩
+
+/-- **C12, sent_tracks_total_sent on every history**: the lock step of the ghost `sent` with the
+contract's own `total_sent` counter, without the `admissible` filter. -/
+theorem sent_tracks_total_sent_all_histories (w : World) (ops : List (Block × Op)) (hwf : WellFormed w.st)
+    (c : String) (d : Denom) :
+    totAt (run w ops).st.chan (c, d) + outstanding w.st c d =
+      (runU (w, Ghost.init w) ops).2.sent (c, d) + totAt w.st.chan (c, d) := by
+  have h0 : TotInv (totAt w.st.chan) (outAt w.st.chan) (w, Ghost.init w) := by
+    intro k; simp only [Ghost.init]; omega
+  have := runU_totInv ops hwf (ledgerInv_init w) h0 (c, d)
+  rw [runU_fst] at this
+  rw [outstanding_eq]; exact this
+
+/-- **C12, `sent` is the sum of the accepted transfers** (clause 1 without the definitional step at a
+migration): for a contract whose stored version is newer than 0.13.0, on every history with `migrate` ops
+anywhere, `outstanding + failedOrTimedOut + redeemed = outstanding₀ + Σ accepted transfers`, where the sum
+(`sentOf`) is read off the transaction outcomes — the packet amount of every accepted transfer on that
+channel and denomination. -/
+theorem outstanding_identity_sum_of_transfers (w : World) (ops : List (Block × Op))
+    (hv : Version.lt MIGRATE_VERSION_3 w.st.version = true) (c : String) (d : Denom) :
+    outstanding (run w ops).st c d + (runU (w, Ghost.init w) ops).2.failed (c, d)
+      + (runU (w, Ghost.init w) ops).2.redeemed (c, d) = outstanding w.st c d + sentOf w ops (c, d) := by
+  obtain ⟨_, h⟩ := outstanding_identity_all_histories w ops c d
+  rw [h]
+  exact runU_sent_postV3 (wg := (w, Ghost.init w)) ops hv (ledgerInv_init w) (c, d)
+
+/-- **C12, the identity from a fresh instantiation, on every history**:
+`outstanding + failedOrTimedOut + redeemed = Σ accepted transfers = total_sent`. -/
+theorem outstanding_identity_fresh_all_histories {m : InstMsg} {s : State} (hi : instantiate m = .ok s) (w : World)
+    (ops : List (Block × Op)) (c : String) (d : Denom) :
+    outstanding (run { w with st := s } ops).st c d + (runU ({ w with st := s }, Ghost.init { w with st := s }) ops).2.failed (c, d)
+      + (runU ({ w with st := s }, Ghost.init { w with st := s }) ops).2.redeemed (c, d) = sentOf { w with st := s } ops (c, d) ∧
+    totAt (run { w with st := s } ops).st.chan (c, d) = sentOf { w with st := s } ops (c, d) := by
+  have h1 := outstanding_identity_sum_of_transfers { w with st := s } ops (instantiate_postV3S hi) c d
+  have h2 := sent_tracks_total_sent_all_histories { w with st := s } ops (instantiate_wellFormed hi) c d
+  have h3 := (outstanding_identity_all_histories { w with st := s } ops c d).2
+  have h0 : outstanding s c d = 0 ∧ totAt s.chan (c, d) = 0 := by
+    simp [instantiate] at hi
+    obtain ⟨_, allow, _, rfl⟩ := hi
+    exact ⟨rfl, rfl⟩
+  simp only [h0.1, h0.2] at h1 h2
+  omega
+
+/-- **C12, handling a packet never aborts, from a fresh instantiation** (`receive_never_aborts` with
+its `Bounded` hypothesis discharged). -/
+theorem receive_never_aborts_fresh {m : InstMsg} {s : State} (hi : instantiate m = .ok s) (w : World)
+    (ops : List (Block × Op)) (blk : Block) (p : PacketIn) (rv tv f : Bool) :
+    ∃ w' o, (run { w with st := s } ops).exec blk (.recv p rv tv f) = .ok (w', o) ∧ o.ack.isSome := by
+  apply receive_never_aborts
+  intro k
+  simp [instantiate] at hi
+  obtain ⟨_, allow, _, rfl⟩ := hi
+  simp [outAt]
+
+/-- `sentOf` on the demo history; with a forged second error acknowledgement of the 60 uatom appended, the
+forged one is refused by the books (nothing outstanding) and the identity holds with `failed = 60`. -/
+example : sentOf w0 hist ("channel-0", .cw20 "T1") = 40 ∧ sentOf w0 hist ("channel-0", .native "uatom") = 60 := by decide
+example : (runU (w0, Ghost.init w0) (hist ++ hist.drop 4)).2.failed ("channel-0", .native "uatom") = 60 ∧
+    outstanding (run w0 (hist ++ hist.drop 4)).st "channel-0" (.native "uatom") = 0 := by decide
+
+/-! ## Packets in flight, and the honest counterparty of the quantifier
+
+`Lemmas/Ics20Honest.lean`: `inflightSum`, `ackedOf` (Σ of the success acknowledgements processed along
+`runG`), the annotated histories `List HEv` (our transactions interleaved with the counterparty's
+`deliver` events), the counterparty state `CpState` (pending / delivered packets, minted vouchers),
+`honestEv` / `HonestFrom` (what an honest counterparty chain and IBC core do) and the invariant `HInv`. -/
+
+/-- **C12, inflight_accounting** (relates the ghost `inflight` — so far only a filter — to the ledgers;
+clause "minus those whose send *failed or timed out*"): for a contract at a stored version newer than
+0.13.0, on every admissible history (migrations anywhere), per channel and denomination
+`failed + ackedOk + Σ in flight = sent − outstanding₀`, i.e. every failure and every success
+acknowledgement consumed a distinct earlier send, and therefore
+`outstanding + redeemed = outstanding₀ + ackedOk + Σ in flight`: the books are short of the packets in
+flight exactly when more vouchers came back than were confirmed. -/
+theorem inflight_accounting (w : World) (ops : List (Block × Op))
+    (hv : Version.lt MIGRATE_VERSION_3 w.st.version = true) (c : String) (d : Denom) :
+    let wg := runG (w, Ghost.init w) ops
+    wg.2.failed (c, d) + ackedOf (w, Ghost.init w) ops (c, d) + inflightSum wg.2 (c, d) + outstanding w.st c d
+      = wg.2.sent (c, d) ∧
+    outstanding wg.1.st c d + wg.2.redeemed (c, d)
+      = outstanding w.st c d + ackedOf (w, Ghost.init w) ops (c, d) + inflightSum wg.2 (c, d) := by
+  intro wg
+  have hwg : wg = runG (w, Ghost.init w) ops := rfl
+  clear_value wg; subst hwg
+  have h1 := runG_inflight (wg := (w, Ghost.init w)) ops hv (ledgerInv_init w) (c, d)
+  have h2 := (runG_ledger ops (ledgerInv_init w)).1 (c, d)
+  have e1 : (w, Ghost.init w).2.sent (c, d) = outAt w.st.chan (c, d) := rfl
+  have e2 : (w, Ghost.init w).2.failed (c, d) = 0 := rfl
+  have e3 : inflightSum (w, Ghost.init w).2 (c, d) = 0 := rfl
+  rw [e1, e2, e3] at h1
+  rw [outstanding_eq, outstanding_eq]
+  constructor <;> omega
+
+/-- **C12, refund_never_refused (honest counterparty)** — the content of "with an honest counterparty
+chain" in the quantifier.  For a contract at a stored version newer than 0.13.0 (e.g. freshly
+instantiated), on every annotated history that is honest (`HonestFrom`: success acknowledgements only
+for packets the counterparty accepted, error acknowledgements / timeouts only for packets it did not
+accept, vouchers come back only as far as they were minted — possibly before the acknowledgement of the
+minting transfer is relayed; everything else arbitrary: any transfers, governance, migrations, fault
+flags), for every packet `p` still pending on `chan`:
+
+* the world is the plain history of the transactions, and it is an admissible history of `runG`;
+* the channel balance covers the packet: `p.amount ≤ outstanding chan p.denom` — the refund is never
+  refused for lack of channel balance;
+* **exact condition for the refund transaction**: whenever the gas check of the denomination passes
+  (`checkGasLimit … = .ok gas`: native, or a cw20 token that validates and is allow-listed or covered by
+  a default gas limit), both the timeout and the error acknowledgement of `p` are processed — the
+  transaction succeeds and emits the refund sub-message to the original sender for the full amount with
+  that gas limit; and if the gas check fails (a token that is neither allowed nor default-covered, or an
+  address that does not validate) the transaction is aborted as a whole (`refund_refused_iff_gas`). -/
+theorem refund_never_refused (w : World) (hv : Version.lt MIGRATE_VERSION_3 w.st.version = true) (evs : List HEv)
+    (hh : HonestFrom (HState.init w) evs) {chan : String} {p : Packet}
+    (hm : (chan, p) ∈ (runH (HState.init w) evs).c.pending) :
+    (runH (HState.init w) evs).w = run w (opsOf evs) ∧
+    ((runH (HState.init w) evs).w, (runH (HState.init w) evs).g) = runG (w, Ghost.init w) (opsOf evs) ∧
+    p.amount ≤ outstanding (run w (opsOf evs)).st chan p.denom ∧
+    ∀ (blk : Block) (sv tv f : Bool) (gas : Option Nat), checkGasLimit (run w (opsOf evs)).st p.denom tv = .ok gas →
+      (∃ w' o, (run w (opsOf evs)).exec blk (.timeout chan (some p) sv tv f) = .ok (w', o) ∧
+        o.sub = some ⟨p.sender, p.amount, p.denom, gas, ACK_FAILURE_ID⟩) ∧
+      (∃ w' o, (run w (opsOf evs)).exec blk (.ack chan (some p) (some false) sv tv f) = .ok (w', o) ∧
+        o.sub = some ⟨p.sender, p.amount, p.denom, gas, ACK_FAILURE_ID⟩) := by
+  have hI := runH_inv evs (hinv_init w hv) hh
+  have hw : (runH (HState.init w) evs).w = run w (opsOf evs) := runH_w (HState.init w) evs
+  obtain ⟨cs, hg, hle⟩ := hinv_pending_covered hI hm
+  rw [hw] at hg
+  refine ⟨hw, runH_eq_runG evs (hinv_init w hv) hh, by simp [outstanding, hg, hle], ?_⟩
+  intro blk sv tv f gas hgas
+  have hf := onPacketFailure_ok_of_entry hg hle hgas
+  exact ⟨exec_timeout_ok hf blk sv f, exec_ackFail_ok hf blk sv f⟩
+
+/-- **C12, the refund of a pending packet is refused iff the gas check refuses its denomination**
+(honest counterparty, stored version newer than 0.13.0): the only way the timeout / error-acknowledgement
+transaction of a pending packet can abort is `check_gas_limit` — a cw20 token that is neither on the
+allow list nor covered by a default gas limit (or whose address does not validate). -/
+theorem refund_refused_iff_gas (w : World) (hv : Version.lt MIGRATE_VERSION_3 w.st.version = true) (evs : List HEv)
+    (hh : HonestFrom (HState.init w) evs) {chan : String} {p : Packet}
+    (hm : (chan, p) ∈ (runH (HState.init w) evs).c.pending) (blk : Block) (sv tv f : Bool) :
+    ((∃ e, (run w (opsOf evs)).exec blk (.timeout chan (some p) sv tv f) = .error e) ↔
+      ∃ e, checkGasLimit (run w (opsOf evs)).st p.denom tv = .error e) ∧
+    ((∃ e, (run w (opsOf evs)).exec blk (.ack chan (some p) (some false) sv tv f) = .error e) ↔
+      ∃ e, checkGasLimit (run w (opsOf evs)).st p.denom tv = .error e) := by
+  obtain ⟨_, _, _, hok⟩ := refund_never_refused w hv evs hh hm
+  cases hg : checkGasLimit (run w (opsOf evs)).st p.denom tv with
+  | ok gas =>
+    obtain ⟨⟨w1, o1, h1, _⟩, ⟨w2, o2, h2, _⟩⟩ := hok blk sv tv f gas hg
+    constructor <;> constructor
+    · rintro ⟨e, he⟩; rw [h1] at he; cases he
+    · rintro ⟨e, he⟩; cases he
+    · rintro ⟨e, he⟩; rw [h2] at he; cases he
+    · rintro ⟨e, he⟩; cases he
+  | error e =>
+    obtain ⟨h1, h2⟩ := refund_aborts_of_gas_error (chan := chan) hg blk sv f
+    exact ⟨⟨fun _ => ⟨e, rfl⟩, fun _ => h1⟩, ⟨fun _ => ⟨e, rfl⟩, fun _ => h2⟩⟩
+
+/-- **C12, honest histories from a fresh instantiation**: `refund_never_refused` with its version
+hypothesis discharged by `instantiate`. -/
+theorem refund_never_refused_fresh {m : InstMsg} {s : State} (hi : instantiate m = .ok s) (w : World) (evs : List HEv)
+    (hh : HonestFrom (HState.init { w with st := s }) evs) {chan : String} {p : Packet}
+    (hm : (chan, p) ∈ (runH (HState.init { w with st := s }) evs).c.pending) :
+    p.amount ≤ outstanding (run { w with st := s } (opsOf evs)).st chan p.denom :=
+  (refund_never_refused { w with st := s } (instantiate_postV3S hi) evs hh hm).2.2.1
+
+/-! ### Non-vacuity: an honest annotated history, and what a dishonest counterparty breaks -/
+
+def pT1 : Packet := ⟨40, .cw20 "T1", "remote-bob", "alice", some "memo"⟩
+def pU : Packet := ⟨60, .native "uatom", "remote-bob", "alice", some "memo"⟩
+
+/-- alice sends 40 T1; the counterparty accepts the packet and mints; 15 vouchers come back *before* the
+success acknowledgement is relayed; the acknowledgement arrives; alice sends 60 uatom (still pending). -/
+def hev : List HEv :=
+  [.op b0 (.sendCw20 "alice" "T1" 40 (some tm)),
+   .deliver "channel-0" pT1,
+   .op b0 (.recv (pkt (.cw20 "T1") 15) true true false),
+   .op b0 (.ack "channel-0" (some pT1) (some true) true true false),
+   .op b0 (.transferNative "alice" [("uatom", 60)] tm)]
+
+example : HonestFrom (HState.init w0) hev := by
+  refine ⟨trivial, ?_, ?_, ?_, trivial, trivial⟩
+  · show ("channel-0", pT1) ∈ (_ : List (String × Packet)); decide
+  · intro amt port ch d h1 h2
+    cases h1; cases h2; decide
+  · show ("channel-0", pT1) ∈ (_ : List (String × Packet)); decide
+
+example : ("channel-0", pU) ∈ (runH (HState.init w0) hev).c.pending ∧
+    outstanding (runH (HState.init w0) hev).w.st "channel-0" (.native "uatom") = 60 ∧
+    outstanding (runH (HState.init w0) hev).w.st "channel-0" (.cw20 "T1") = 25 ∧
+    (runH (HState.init w0) hev).c.minted ("channel-0", .cw20 "T1") = 40 ∧
+    ackedOf (w0, Ghost.init w0) (opsOf hev) ("channel-0", .cw20 "T1") = 40 ∧
+    inflightSum (runG (w0, Ghost.init w0) (opsOf hev)).2 ("channel-0", .native "uatom") = 60 := by decide
+
+/-- Honesty is needed: if the counterparty lets 40 vouchers "come back" for a packet it never accepted
+(`redeemed + 40 > minted = 0`), the contract pays them out, and the timeout of the still pending packet is
+then refused for lack of channel balance — the transaction aborts although T1 is allow-listed. -/
+example : ¬ HonestFrom (HState.init w0) [.op b0 (.sendCw20 "alice" "T1" 40 (some tm)), .op b0 (.recv (pkt (.cw20 "T1") 40) true true false)] := by
+  rintro ⟨_, h, _⟩
+  have := h 40 _ _ _ rfl rfl
+  revert this; decide
+example : ((run w0 [(b0, .sendCw20 "alice" "T1" 40 (some tm)), (b0, .recv (pkt (.cw20 "T1") 40) true true false)]).exec b0
+      (.timeout "channel-0" (some pT1) true true false)).isOk = false ∧
+    (checkGasLimit (run w0 [(b0, .sendCw20 "alice" "T1" 40 (some tm)), (b0, .recv (pkt (.cw20 "T1") 40) true true false)]).st
+      (.cw20 "T1") true).isOk = true := by decide
+
+/-! ### Honest counterparty and a contract deployed with the current code: refunds are always processed -/
+
+/-- **C12, refund_always_processed_fresh** (honest counterparty + C18 `in_channel_payable`): for a contract
+created by `instantiate` (any allow list, any default gas limit or none), on every honest annotated
+history (governance ops and migrations by anybody anywhere), for every packet still pending on a channel,
+the timeout and the error acknowledgement of that packet — with the cw20 address of its denomination
+validating (`tv = true`; it was `info.sender` of the original `Receive`) — are **processed**: the
+transaction succeeds and emits the refund of the full amount to the original sender, with the gas limit
+`expectedGas` (the token's allow-list limit, else the default).  Neither the channel balance (honest
+counterparty) nor the gas check (the token passed the transfer gate, and the allow list only loosens) can
+refuse it.  The refund sub-call itself may still fail; it is then swallowed (`C11.refund_effects_*`). -/
+theorem refund_always_processed_fresh {m : InstMsg} {s : State} (hi : instantiate m = .ok s) (w : World) (evs : List HEv)
+    (hh : HonestFrom (HState.init { w with st := s }) evs) {chan : String} {p : Packet}
+    (hm : (chan, p) ∈ (runH (HState.init { w with st := s }) evs).c.pending) (blk : Block) (sv f : Bool) :
+    (∃ w' o, (run { w with st := s } (opsOf evs)).exec blk (.timeout chan (some p) sv true f) = .ok (w', o) ∧
+      o.sub = some ⟨p.sender, p.amount, p.denom, C18.expectedGas (run { w with st := s } (opsOf evs)).st p.denom, ACK_FAILURE_ID⟩) ∧
+    (∃ w' o, (run { w with st := s } (opsOf evs)).exec blk (.ack chan (some p) (some false) sv true f) = .ok (w', o) ∧
+      o.sub = some ⟨p.sender, p.amount, p.denom, C18.expectedGas (run { w with st := s } (opsOf evs)).st p.denom, ACK_FAILURE_ID⟩) := by
+  have hv := instantiate_postV3S hi
+  obtain ⟨_, _, hle, hok⟩ := refund_never_refused { w with st := s } hv evs hh hm
+  have hpos := (runH_inv evs (hinv_init { w with st := s } hv) hh).pending_pos _ hm
+  simp only at hpos
+  apply hok blk sv true f
+  cases hd : p.denom with
+  | native dn => rfl
+  | cw20 t =>
+    rw [hd] at hle
+    have hpos' : 0 < outstanding (run { w with st := s } (opsOf evs)).st chan (.cw20 t) := by omega
+    exact (C18.in_channel_payable hi w (opsOf evs) chan t (Or.inr hpos')).2
+
+/-- a fresh instantiation and an honest history to which `refund_always_processed_fresh` applies: T1 is
+allow-listed, alice's 40 T1 are pending -/
+example : ∃ s, instantiate ⟨3600, ⟨true, "gov"⟩, [(⟨true, "T1"⟩, some 500)], none⟩ = .ok s ∧
+    HonestFrom (HState.init { w0 with st := s })
+      [.op b0 (.connect "channel-0" ICS20_VERSION none false {}), .op b0 (.sendCw20 "alice" "T1" 40 (some tm))] ∧
+    ("channel-0", pT1) ∈ (runH (HState.init { w0 with st := s })
+      [.op b0 (.connect "channel-0" ICS20_VERSION none false {}), .op b0 (.sendCw20 "alice" "T1" 40 (some tm))]).c.pending :=
+  ⟨_, rfl, ⟨trivial, trivial, trivial⟩, by decide⟩
+
+/-! ## The emitted packet carries what was really escrowed -/
+
+/-- **C12, transfer_escrow_effects** (the balance side of `transfer_emits_one_packet`: "a packet carrying
+the *escrowed* amount"): for an accepted transfer the amount in the emitted packet is exactly what moved
+into the contract —
+* native: the sender's bank balance of that denomination dropped by `amt` (it had at least `amt`), the
+  contract's rose by `amt`, every other bank balance and every cw20 balance is unchanged;
+* cw20 `Send`: the same for the token balances of that token (a token that exists), every other token
+  balance and every bank balance unchanged;
+* a direct `Receive` hook call (the caller is not a token contract that exists: E1) moves nothing at all —
+  the packet's denomination `cw20:<caller>` is then no real token and has no holdings. -/
+theorem transfer_escrow_effects {w w' : World} {blk : Block} {o : Outcome} :
+    (∀ snd funds msg, w.exec blk (.transferNative snd funds msg) = .ok (w', o) →
+      ∃ d amt out, funds = [(d, amt)] ∧ o.sent = [out] ∧ out.packet.amount = amt ∧ out.packet.denom = .native d ∧
+        amt ≤ w.bankBal snd d ∧ w'.bankBal snd d + amt = w.bankBal snd d ∧
+        w'.bankBal w.self d = w.bankBal w.self d + amt ∧
+        (∀ a x, (a, x) ≠ (snd, d) → (a, x) ≠ (w.self, d) → w'.bankBal a x = w.bankBal a x) ∧ w'.tok = w.tok) ∧
+    (∀ snd token amt msg, w.exec blk (.sendCw20 snd token amt msg) = .ok (w', o) →
+      ∃ out, o.sent = [out] ∧ out.packet.amount = amt ∧ out.packet.denom = .cw20 token ∧ w.tokens.contains token = true ∧
+        amt ≤ w.tokBal token snd ∧ w'.tokBal token snd + amt = w.tokBal token snd ∧
+        w'.tokBal token w.self = w.tokBal token w.self + amt ∧
+        (∀ t a, (t, a) ≠ (token, snd) → (t, a) ≠ (token, w.self) → w'.tokBal t a = w.tokBal t a) ∧ w'.bank = w.bank) ∧
+    (∀ snd funds sender amt msg, w.exec blk (.hook snd funds sender amt msg) = .ok (w', o) →
+      ∃ out, o.sent = [out] ∧ out.packet.amount = amt ∧ out.packet.denom = .cw20 snd ∧
+        w'.bank = w.bank ∧ w'.tok = w.tok ∧ w.holdings (.cw20 snd) = none) := by
+  refine ⟨?_, ?_, ?_⟩
+  · intro snd funds msg h
+    obtain ⟨d, amt, w1, s, out, rfl, hself, hb, hs, rfl, rfl⟩ := exec_transferNative_spec h
+    obtain ⟨ch, _, _, _, _, _, _, rfl, _⟩ := execTransfer_spec hs
+    obtain ⟨hle, hbal⟩ := bankSend_spec hb
+    have htk := (bankSend_frame hb).2.1
+    refine ⟨d, amt, _, rfl, rfl, rfl, rfl, hle, ?_, ?_, ?_, htk⟩
+    · have := hbal snd d; simp [Ne.symm hself] at this
+      show w1.bankBal snd d + amt = _
+      rw [this]; omega
+    · have := hbal w.self d; simp [hself] at this
+      exact this
+    · intro a x h1 h2
+      have := hbal a x
+      simp [Ne.symm h1, Ne.symm h2] at this
+      exact this
+  · intro snd token amt msg h
+    obtain ⟨w1, m, s, out, hself, htoken, hb, rfl, hs, rfl, rfl⟩ := exec_sendCw20_spec h
+    obtain ⟨ch, _, _, _, _, _, _, rfl, _⟩ := execTransfer_spec hs
+    obtain ⟨hle, hbal⟩ := tokSend_spec hb
+    have hbk := (tokSend_frame hb).2.1
+    refine ⟨_, rfl, rfl, rfl, htoken, hle, ?_, ?_, ?_, hbk⟩
+    · have := hbal token snd; simp [Ne.symm hself] at this
+      show w1.tokBal token snd + amt = _
+      rw [this]; omega
+    · have := hbal token w.self; simp [hself] at this
+      exact this
+    · intro t a h1 h2
+      have := hbal t a
+      simp [Ne.symm h1, Ne.symm h2] at this
+      exact this
+  · intro snd funds sender amt msg h
+    obtain ⟨m, s, out, hnt, rfl, hs, rfl, rfl⟩ := exec_hook_spec h
+    obtain ⟨ch, _, _, _, _, _, _, rfl, _⟩ := execTransfer_spec hs
+    exact ⟨_, rfl, rfl, rfl, rfl, rfl, by simp only [World.holdings, hnt, Bool.false_eq_true, if_false]⟩
+
+/-- the first transfer of the demo history moves 40 T1 from alice into the contract -/
+example : (w0.step b0 (.sendCw20 "alice" "T1" 40 (some tm))).tokBal "T1" "ics20" = 40 ∧
+    (w0.step b0 (.sendCw20 "alice" "T1" 40 (some tm))).tokBal "T1" "alice" = 60 := by decide
+
+/-! ## Frame of a successful redemption -/
+
+/-- **C12, success_ack_frame** (clause 2, "…and the balance reduced by it", with everything else pinned
+down): with a success acknowledgement, exactly the packet's amount moved from the contract to the
+receiver and every other bank and cw20 balance is unchanged (`C11.Moved`); only the entry of the redeemed
+(channel, denomination) changed in the books — every other `outstanding`, and every `total_sent`
+including that entry's, is as before; allow list, admin, config, channel list and stored version are
+untouched; `REPLY_ARGS` holds the redeemed triple. -/
+theorem success_ack_frame {w w' : World} {blk : Block} {p : PacketIn} {rv tv f : Bool} {o : Outcome}
+    (h : w.exec blk (.recv p rv tv f) = .ok (w', o)) (ha : o.ack = some .success) (hrs : p.receiver ≠ w.self) :
+    ∃ amt d, p.amount = some amt ∧ p.voucher = some (p.srcPort, p.srcChan, d) ∧
+      C11.Moved w w' d p.receiver amt ∧
+      (∀ k, k ≠ (p.destChan, d) → outAt w'.st.chan k = outAt w.st.chan k) ∧
+      (∀ k, totAt w'.st.chan k = totAt w.st.chan k) ∧
+      w'.st.allow = w.st.allow ∧ w'.st.admin = w.st.admin ∧ w'.st.config = w.st.config ∧
+      w'.st.channels = w.st.channels ∧ w'.st.version = w.st.version ∧
+      w'.st.replyArgs = some ⟨p.destChan, d, amt⟩ ∧
+      o.sub = some ⟨p.receiver, amt, d, C18.expectedGas w.st d, RECEIVE_ID⟩ := by
+  obtain ⟨s1, sub, hd, hp⟩ := (success_ack_iff_paid h).mp ha
+  obtain ⟨amt, d, ch, hamt, hv, hred, rfl, hto, hsa, hsd, hid, g, hg, hgas⟩ := doReceive_spec hd
+  obtain ⟨cs, _, _, _, ho, ht⟩ := reduceBalance_spec hred
+  have hst := (payout_frame hp).1
+  have hm := C11.payout_moved hp (by rw [hto]; exact hrs)
+  rw [hsd, hto, hsa] at hm
+  have hsub : o.sub = some sub := by
+    rcases exec_recv_cases h with ⟨⟨e, he⟩, _⟩ | ⟨s1', sub', hd', hsub, _⟩
+    · rw [hd] at he; cases he
+    · rw [hd] at hd'; cases hd'; exact hsub
+  have hsubeq : sub = ⟨p.receiver, amt, d, C18.expectedGas w.st d, RECEIVE_ID⟩ := by
+    cases sub
+    simp only at hto hsa hsd hid hgas
+    rw [hto, hsa, hsd, hid, hgas, (C18.checkGasLimit_spec hg).1]
+  refine ⟨amt, d, hamt, hv, ?_, ?_, ?_, ?_, ?_, ?_, ?_, ?_, ?_, by rw [hsub, hsubeq]⟩
+  · cases d <;> exact hm
+  · intro k hk; rw [hst]; simp only; rw [ho k]; simp [hk]
+  · intro k; rw [hst]; exact ht k
+  all_goals rw [hst]
+
+example : ∃ w' o, (run w0 (hist.take 1)).exec b0 (.recv (pkt (.cw20 "T1") 15) true true false) = .ok (w', o) ∧
+    o.ack = some .success ∧ w'.tokBal "T1" "alice" = 75 := ⟨_, _, rfl, by decide, by decide⟩
+
+/-! ## Exactly which transfers are accepted -/
+
+/-- **C12, transfer_accepted_iff** (the converse of `transfer_emits_one_packet`: the model does not accept
+too little): `execute_transfer` accepts iff the amount is non-zero, the channel is registered, the config
+has the current layout, the cw20 gate holds (native, or allow-listed, or a default gas limit is set), the
+timeout `block.time + (requested ∨ default)·10⁹` fits `u64` (product and sum), the amount fits `u64`, and
+neither `outstanding` nor `total_sent` of the key overflows `Uint128`. -/
+theorem transfer_accepted_iff (s : State) (blk : Block) (msg : TransferMsg) (d : Denom) (amt : Nat) (snd : Addr) :
+    (∃ r, execTransfer s blk msg d amt snd = .ok r) ↔
+      amt ≠ 0 ∧ msg.channel ∈ s.channels ∧ s.v1gov = none ∧ transferGate s s.config d = true ∧
+      (msg.timeout.getD s.config.defaultTimeout) * 1000000000 ≤ U64_MAX ∧
+      blk.time + (msg.timeout.getD s.config.defaultTimeout) * 1000000000 ≤ U64_MAX ∧ amt ≤ U64_MAX ∧
+      outAt s.chan (msg.channel, d) + amt ≤ U128_MAX ∧ totAt s.chan (msg.channel, d) + amt ≤ U128_MAX := by
+  have hout : outAt s.chan (msg.channel, d) = ((s.chan.get? (msg.channel, d)).getD ⟨0, 0⟩).outstanding := by
+    simp [outAt]; cases s.chan.get? (msg.channel, d) <;> rfl
+  have htot : totAt s.chan (msg.channel, d) = ((s.chan.get? (msg.channel, d)).getD ⟨0, 0⟩).totalSent := by
+    simp [totAt]; cases s.chan.get? (msg.channel, d) <;> rfl
+  rw [hout, htot]
+  cases hv : s.v1gov with
+  | some g => simp [execTransfer, loadConfig, hv]
+  | none => simp [execTransfer, loadConfig, hv, increaseBalance]
+
+/-- **C12, send_accepted_iff** (transaction level, cw20 `Send` — also the liveness side of C18's gate: the
+gate is not stricter than stated): a `Send{contract: ics20, amount, msg}` on a real token is accepted iff
+the sender is not the contract itself, the token exists, the sender owns the amount, the hook message
+decodes, and `execute_transfer` accepts (`transfer_accepted_iff`). -/
+theorem send_accepted_iff (w : World) (blk : Block) (snd token : Addr) (amt : Nat) (msg : Option TransferMsg) :
+    (∃ r, w.exec blk (.sendCw20 snd token amt msg) = .ok r) ↔
+      snd ≠ w.self ∧ w.tokens.contains token = true ∧ amt ≤ w.tokBal token snd ∧
+      ∃ m, msg = some m ∧ ∃ r, execTransfer w.st blk m (.cw20 token) amt snd = .ok r := by
+  constructor
+  · rintro ⟨⟨w', o⟩, h⟩
+    obtain ⟨w1, m, s, out, hself, htoken, hb, rfl, hs, _, _⟩ := exec_sendCw20_spec h
+    exact ⟨hself, htoken, (tokSend_spec hb).1, m, rfl, _, hs⟩
+  · rintro ⟨hself, htoken, hle, m, rfl, ⟨s', out⟩, hs⟩
+    have hb : ∃ w1, w.tokSend token snd w.self amt = some w1 := by
+      unfold World.tokSend
+      simp [Nat.not_lt.mpr hle]
+    obtain ⟨w1, hb⟩ := hb
+    have hst := (tokSend_frame hb).1
+    refine ⟨({ w1 with st := s' }, { sent := [out] }), ?_⟩
+    have htok' : token ∈ w.tokens := by simpa using htoken
+    simp only [World.exec]
+    simp [check, hself, htok', hb, hst, execReceive, hs, bind, Except.bind, pure, Except.pure]
+
+example : ∃ r, w0.exec b0 (.sendCw20 "alice" "T1" 40 (some tm)) = .ok r :=
+  (send_accepted_iff w0 b0 "alice" "T1" 40 (some tm)).mpr
+    ⟨by decide, by decide, by decide, tm, rfl,
+      (transfer_accepted_iff _ _ _ _ _ _).mpr ⟨by decide, by decide, by decide, by decide, by decide, by decide, by decide, by decide, by decide⟩⟩
+
+/-- **C12, on histories that respect IBC core's guarantee `runG` skips nothing**: if every acknowledgement
+/ timeout of the history is `admissible` where it happens (`AdmissibleFrom`: the guarantee as a predicate on
+the history rather than as a filter), the ghost history of `outstanding_identity` is the unfiltered one and
+its world is the plain history `run w ops` — so `outstanding_identity` speaks about exactly the states the
+contract goes through. -/
+theorem admissible_history_is_plain (w : World) (ops : List (Block × Op)) (h : AdmissibleFrom (w, Ghost.init w) ops) :
+    runG (w, Ghost.init w) ops = runU (w, Ghost.init w) ops ∧ (runG (w, Ghost.init w) ops).1 = run w ops := by
+  have e := runG_eq_runU ops h
+  exact ⟨e, by rw [e]; exact runU_fst _ _⟩
+
+/-- the demo history respects the guarantee -/
+example : AdmissibleFrom (w0, Ghost.init w0) hist := by
+  refine ⟨rfl, rfl, rfl, rfl, ?_, trivial⟩
+  decide
 
 end CwPlus.Props.C12
